@@ -644,6 +644,24 @@ pub fn writer_archive(r: &mut Rng) -> (Vec<u8>, String) {
     (bytes, format!("{};0;{};{}", exp.len(), hex(&comment), exp.join(";")))
 }
 
+/// (h) archives EMITTED by CPython's `zipfile` (harness/pyzip.py, run at generation time): one map per
+/// archive with `kind`, `bytes`, `expect` (what Python says it wrote), `pymeta`, `stream`.  `None` when
+/// python3 cannot be run (the class is then counted as skipped).
+pub fn python_archives(seed: u64, count: usize) -> Option<Vec<std::collections::BTreeMap<String, String>>> {
+    use std::io::Write;
+    use std::process::{Command, Stdio};
+    let mut ch = Command::new("python3").arg("-").arg(seed.to_string()).arg(count.to_string())
+        .stdin(Stdio::piped()).stdout(Stdio::piped()).stderr(Stdio::null()).spawn().ok()?;
+    let mut stdin = ch.stdin.take()?;
+    let feeder = std::thread::spawn(move || { let _ = stdin.write_all(include_str!("../../pyzip.py").as_bytes()); });
+    let out = ch.wait_with_output().ok()?;
+    let _ = feeder.join();
+    if !out.status.success() { return None; }
+    let text = String::from_utf8(out.stdout).ok()?;
+    let v: Vec<_> = text.lines().map(|l| parse_line(&format!("py {l}")).1).filter(|m| m.contains_key("bytes") && m.contains_key("expect")).collect();
+    if v.len() == count { Some(v) } else { None }
+}
+
 fn lie(r: &mut Rng, l: &mut Layout) {
     let edge = [0u64, 1, 0xFFFE, 0xFFFF, 0x10000, 0xFFFFFFFE, 0xFFFFFFFF, 0x100000000, u64::MAX - 1, u64::MAX, 20, 46];
     let n = l.entries.len();
@@ -751,7 +769,7 @@ impl Stream for ReadStream {
 
     fn gen(&self, seed: u64, tier: &str) -> GenOut {
         let mut g = GenOut::default();
-        g.rule = "archives from (a) the independent APPNOTE builder (descriptors, forced ZIP64 subsets, prefix, gaps, made-by systems, unknown extras, comments), (b) the crate's writer, (c) builder archives with lying headers (values near 0/2^16/2^32/2^64, AES extras with/without flag, method 99), (d) every truncation point and byte substitutions of seeds, (e) random bytes; each through the seekable (read.seek) and streaming (read.stream) readers; (b2/b3) the streaming entry loop under per-entry consumption patterns (read.streamc: {0, 1, k, all-1, all, all+1, beyond} computed from the entry sizes, and random) over short-read underlying streams (chunk 1, 2, 3, 7, 64, 4096, unlimited) on writer-made and builder-made archives with at least one entry, the visitor on the same archives, and archives with an encrypted / data-descriptor entry the stream must refuse; and a third of them (all truncations and random strings) through ZipWriter::new_append + finish (read.append), (f) pre-allocation liars: junk of 0..200000 bytes (2000000 thorough) + end records (plain and ZIP64) declaring cde_start_pos-1 / cde_start_pos / cde_start_pos+1 / 4x / 64x / 2^32 / 2^64-1 entries, and archives with 50..400 (3000) real entries (read.mem: open only), (g) empty ZIP64 archives whose directory offset points beyond the input (D16 regression cases: new_append must refuse; as a hard guard finish is skipped and reported by the oracle should the directory start ever exceed the input length by more than 1 MiB). The oracle re-runs every case on the implementation under a counting global allocator: no panic, deterministic, wall time < 2 s, peak heap while opening <= (size_of::<ZipFileData>()+128)*len + 1 MiB (measurement, not proof). distinct = distinct op lines; non-trivial = the archive opens".into();
+        g.rule = "archives from (a) the independent APPNOTE builder (descriptors, forced ZIP64 subsets, prefix, gaps, made-by systems, unknown extras, comments), (b) the crate's writer, (c) builder archives with lying headers (values near 0/2^16/2^32/2^64, AES extras with/without flag, method 99), (d) every truncation point and byte substitutions of seeds, (e) random bytes; each through the seekable (read.seek) and streaming (read.stream) readers; (b2/b3) the streaming entry loop under per-entry consumption patterns (read.streamc: {0, 1, k, all-1, all, all+1, beyond} computed from the entry sizes, and random) over short-read underlying streams (chunk 1, 2, 3, 7, 64, 4096, unlimited) on writer-made and builder-made archives with at least one entry, the visitor on the same archives, and archives with an encrypted / data-descriptor entry the stream must refuse; and a third of them (all truncations and random strings) through ZipWriter::new_append + finish (read.append), (f) pre-allocation liars: junk of 0..200000 bytes (2000000 thorough) + end records (plain and ZIP64) declaring cde_start_pos-1 / cde_start_pos / cde_start_pos+1 / 4x / 64x / 2^32 / 2^64-1 entries, and archives with 50..400 (3000) real entries (read.mem: open only), (h) archives EMITTED by CPython zipfile at generation time (harness/pyzip.py; skipped and counted when python3 is missing): stored / deflate / bzip2 / lzma (unsupported: must fail per entry) payloads, archive and entry comments, duplicate names, DOS / Unix / other hosts, mkdir, unseekable output (data descriptors), force_zip64 seekable and unseekable, 0..64 KiB prefixes prepended or written through - the oracle compares names, contents, method, timestamp, mode, comment, CRC, sizes and header offsets with what Python says it wrote, (g) empty ZIP64 archives whose directory offset points beyond the input (D16 regression cases: new_append must refuse; as a hard guard finish is skipped and reported by the oracle should the directory start ever exceed the input length by more than 1 MiB). The oracle re-runs every case on the implementation under a counting global allocator: no panic, deterministic, wall time < 2 s, peak heap while opening <= (size_of::<ZipFileData>()+128)*len + 1 MiB (measurement, not proof). distinct = distinct op lines; non-trivial = the archive opens".into();
         let thorough = tier == "thorough";
         let scale = if thorough { 20 } else { 1 };
         let mut idx = 0u64;
@@ -890,6 +908,24 @@ impl Stream for ReadStream {
             let mut b = { let n = r.below(200) as usize; r.bytes(n) };
             if r.chance(1, 2) { b.extend_from_slice(&[0x50, 0x4b, 0x05, 0x06]); b.extend_from_slice(&{ let n = r.below(30) as usize; r.bytes(n) }); }
             push(&mut g, "random", &b, None, true);
+        }
+        // (h) archives emitted by CPython's zipfile (F8): stored / deflate / bzip2 / lzma (unsupported method: must
+        // fail per entry), archive and entry comments, duplicate names, DOS and other hosts, mkdir, unseekable output
+        // (data descriptors), force_zip64 seekable and unseekable, prefixes of 0..64 KiB prepended or written
+        // through (absolute offsets).  The oracle compares with what Python says it wrote.
+        match python_archives(seed, if thorough { 2100 } else { 140 }) {
+            None => { *g.dist.entry("gen.seek.python.skipped(no python3)".into()).or_insert(0) += 1; }
+            Some(v) => for m in v {
+                let bytes = unhex(&m["bytes"]).unwrap_or_default();
+                let kind = format!("python.{}", m["kind"]);
+                let codec = codec_table(&bytes);
+                g.push(&format!("seek.{kind}"), format!("read.seek bytes={} codec={codec} expect={} pymeta={}", hex(&bytes), m["expect"], m["pymeta"]));
+                match m.get("stream").map(|s| s.as_str()) {
+                    Some("src") => g.push(&format!("stream.{kind}"), format!("read.stream bytes={} codec={codec} src=python", hex(&bytes))),
+                    Some("refuse") => g.push(&format!("stream.{kind}.refused"), format!("read.stream bytes={} codec={codec} refuse=0", hex(&bytes))),
+                    _ => g.push(&format!("stream.{kind}.other"), format!("read.stream bytes={} codec={codec}", hex(&bytes))),
+                }
+            }
         }
         // (f) pre-allocation liars: junk + an end record declaring as many entries as the guard at
         // read.rs:413 lets through (count = cde_start_pos), one more (guard trips), and 2^64-1; plus
@@ -1132,14 +1168,37 @@ impl Stream for ReadStream {
                 f.push(OracleFailure { what: format!("entry {i}: method differs from the producer's ({m})") });
             }
             let unsupported = !(m == "0" || m == "8" || m == "12" || m == "93");
+            // an unsupported method fails cleanly PER ENTRY: metadata and raw bytes are served, decoding is refused
+            if unsupported && !e.contains(" dec=err:unsupported ") {
+                f.push(OracleFailure { what: format!("entry {i}: method {m} is not decodable, by_index must answer UnsupportedArchive for this entry alone: `{}`", &e[e.len().saturating_sub(90)..]) });
+            }
             if !unsupported && !e.contains(&format!(" ok:{crc}:{len} byname=")) {
                 f.push(OracleFailure { what: format!("entry {i}: content differs from the producer's (crc {crc} len {len}): `{}`", &e[e.len().saturating_sub(90)..]) });
             }
             // by_name returns the LAST entry with that name
             let last = parts[3..].iter().rposition(|y| y.split(':').next() == Some(name)).unwrap_or(i);
             let chs_last = ents[last].split(" chs=").nth(1).and_then(|s| s.split(' ').next()).unwrap_or("?");
-            if !unsupported && !e.ends_with(&format!("byname={chs_last}")) {
+            // ... and an undecodable last entry of that name makes the lookup fail the way by_index does for it
+            let last_m = parts[3..][last].split(':').nth(1).unwrap_or("0");
+            let want_byname = if last_m == "0" || last_m == "8" || last_m == "12" || last_m == "93" { chs_last.to_string() } else { "err:unsupported".to_string() };
+            if !e.ends_with(&format!("byname={want_byname}")) {
                 f.push(OracleFailure { what: format!("entry {i}: by_name does not return the last entry of that name") });
+            }
+        }
+        // what the PRODUCER (CPython zipfile) says it wrote, field by field
+        if let Some(pm) = a.get("pymeta").filter(|p| p.as_str() != "-") {
+            for (i, (e, want)) in ents.iter().zip(pm.split(';')).enumerate() {
+                for kv in want.split(',') {
+                    let (k, v) = kv.split_once('=').unwrap_or((kv, ""));
+                    let got = meta_field(e, k);
+                    let ok = match k {
+                        "bit3" => true,
+                        // a DOS read-only entry: permission bits only
+                        "perm" => meta_field(e, "mode").parse::<u32>().map(|m| (m & 0o777).to_string() == v).unwrap_or(false),
+                        _ => got == v,
+                    };
+                    if !ok { f.push(OracleFailure { what: format!("entry {i}: {k} = `{got}`, the producer (CPython zipfile) wrote `{v}`") }); }
+                }
             }
         }
         f
